@@ -42,7 +42,7 @@ func pseudoVersion(modPath string) string {
 // requireBlock: the require / replace lines of the main go.mod, in the layout `go mod edit` leaves (so that the go
 // command has no reason to rewrite the file).
 func (m *Module) requireBlock() string {
-	if len(m.Ext) == 0 {
+	if len(m.Ext) == 0 || m.WorkNoRequire() {
 		return ""
 	}
 	var b strings.Builder
@@ -83,7 +83,7 @@ func SnapshotModule(root string, m *Module) (Tree, error) {
 	if err != nil {
 		return nil, err
 	}
-	if m.Work == "parent" {
+	if m.WorkPlace() == "parent" {
 		if b, err := os.ReadFile(filepath.Join(root, "..", "go.work")); err == nil {
 			t["../go.work"] = b
 		}
@@ -413,7 +413,7 @@ func shrinkExt(sc Scenario) []Scenario {
 		}
 	}
 	if sc.Module.Work != "" {
-		if sc.Module.Work == "parent" {
+		if sc.Module.WorkPlace() == "parent" && sc.Module.Work != "auto" {
 			c := clone(sc)
 			c.Module.Work = "root"
 			out = append(out, c)
